@@ -250,3 +250,20 @@ Proof.
   intros k Hk. rewrite length_swapl in Hk. rewrite nth_swapl by assumption.
   unfold tau. destruct (k =? i) eqn:E; [apply Nat.eqb_eq in E; now subst|reflexivity].
 Qed.
+
+Lemma valid1 : forall a i, i < a -> valid [a] [i].
+Proof. intros. constructor; [assumption|constructor]. Qed.
+
+Lemma valid2 : forall a b i j, i < a -> j < b -> valid [a; b] [i; j].
+Proof. intros. constructor; [assumption|]. now apply valid1. Qed.
+
+Lemma norm_dim_lt : forall D dim d, norm_dim D dim = Some d -> (d < D)%nat.
+Proof.
+  intros D dim d H. unfold norm_dim in H.
+  destruct ((dim <? - Z.of_nat D) || (Z.of_nat D <=? dim))%Z eqn:E; [discriminate|].
+  inversion H; subst d; clear H. apply orb_false_iff in E. destruct E as [E1 E2].
+  apply Z.ltb_ge in E1. apply Z.leb_gt in E2.
+  assert (0 < Z.of_nat D)%Z by lia.
+  pose proof (Z.mod_pos_bound (dim + Z.of_nat D) (Z.of_nat D) ltac:(lia)). lia.
+Qed.
+
